@@ -240,109 +240,127 @@ func classifierWriterRule(p *Prog, r *Report, rule string) {
 
 func c01Builders(p *Prog, ib *inbound, r *Report) {
 	nBuilders := 0
-	for _, fn := range p.RepoFns("spine") {
+	for _, fn0 := range p.ScopeRoots("spine") {
+		fn := fn0
 		if fn.Signature.Recv() == nil || !implementsIface(fn.Signature.Recv().Type(), ib.sender) {
 			continue
 		}
-		// a builder: stores a constant classifier result/reply into a HeaderType
-		for _, b := range fn.Blocks {
-			for _, ins := range b.Instrs {
-				st, isSt := ins.(*ssa.Store)
-				if !isSt {
-					continue
-				}
-				fa, isFA := st.Addr.(*ssa.FieldAddr)
-				if !isFA || fieldOfAddr(fa) == nil || fieldOfAddr(fa).Name() != "CmdClassifier" || !isNamed(fa.X.Type(), "model", "HeaderType") {
-					continue
-				}
-				cls := ""
-				for _, s := range p.Sources(st.Val, false) {
-					if s.Kind == "const" {
-						if k, ok := s.Val.(*ssa.Const); ok {
-							if cs, ok := constString(k); ok {
-								cls += cs
-							}
-						}
-					}
-				}
-				if cls != "result" && cls != "reply" {
-					continue
-				}
-				nBuilders++
-				base := FnName(fn) + "|" + cls
-				hdr := fa.X // address of the header
-				got := map[string]ssa.Value{}
-				if hdr.Referrers() != nil {
-					for _, ref := range *hdr.Referrers() {
-						f2, ok := ref.(*ssa.FieldAddr)
-						if !ok {
+		p.InScope(fn, func() {
+			// a builder: stores a constant classifier result/reply into a HeaderType — in the function itself or in an
+			// extracted helper of it (whose parameters then stand for the arguments)
+			var bodies []*ssa.Function
+			bodies = append(bodies, fn)
+			for h := range p.scopeOf(fn).site {
+				bodies = append(bodies, h)
+			}
+			sort.Slice(bodies, func(i, j int) bool { return bodies[i].String() < bodies[j].String() })
+			for _, body := range bodies {
+				for _, b := range body.Blocks {
+					for _, ins := range b.Instrs {
+						st, isSt := ins.(*ssa.Store)
+						if !isSt {
 							continue
 						}
-						for _, r2 := range *f2.Referrers() {
-							if s2, ok := r2.(*ssa.Store); ok && s2.Addr == ssa.Value(f2) {
-								got[fieldOfAddr(f2).Name()] = s2.Val
-							}
+						fa, isFA := st.Addr.(*ssa.FieldAddr)
+						if !isFA || fieldOfAddr(fa) == nil || fieldOfAddr(fa).Name() != "CmdClassifier" || !isNamed(fa.X.Type(), "model", "HeaderType") {
+							continue
 						}
-					}
-				}
-				pos := p.InstrPos(st)
-				reqParam := ""
-				sndParam := ""
-				for _, prm := range fn.Params[1:] {
-					if isNamed(prm.Type(), "model", "HeaderType") {
-						reqParam = "param:" + prm.Name()
-					} else if isNamed(prm.Type(), "model", "FeatureAddressType") && sndParam == "" {
-						sndParam = "param:" + prm.Name()
-					}
-				}
-				ref := ""
-				if v := got["MsgCounterReference"]; v != nil {
-					ref = Path(v)
-				}
-				r.Check("R4", base+"|msgCounterReference", reqParam != "" && ref == reqParam+".MsgCounter", pos, "MsgCounterReference = "+ref)
-				dst := ""
-				if v := got["AddressDestination"]; v != nil {
-					dst = Path(v)
-				}
-				r.Check("R4", base+"|destination", reqParam != "" && dst == reqParam+".AddressSource", pos, "AddressDestination = "+dst)
-				// source: address of a local copy of *request.AddressDestination with Device = sender.Device
-				srcOK, srcDesc := false, ""
-				if v := got["AddressSource"]; v != nil {
-					if al, ok := v.(*ssa.Alloc); ok {
-						whole, dev := "", ""
-						for _, ref := range *al.Referrers() {
-							switch y := ref.(type) {
-							case *ssa.Store:
-								if y.Addr == ssa.Value(al) {
-									whole = Path(y.Val)
-								}
-							case *ssa.FieldAddr:
-								for _, r2 := range *y.Referrers() {
-									if s2, ok := r2.(*ssa.Store); ok && s2.Addr == ssa.Value(y) {
-										if fieldOfAddr(y).Name() == "Device" {
-											dev = Path(s2.Val)
-										} else {
-											dev = "other field " + fieldOfAddr(y).Name()
-										}
+						cls := ""
+						for _, s := range p.Sources(st.Val, false) {
+							if s.Kind == "const" {
+								if k, ok := s.Val.(*ssa.Const); ok {
+									if cs, ok := constString(k); ok {
+										cls += cs
 									}
 								}
 							}
 						}
-						srcDesc = fmt.Sprintf("copy of %s with Device = %s", whole, dev)
-						srcOK = whole == reqParam+".AddressDestination" && dev == sndParam+".Device"
-					} else {
-						srcDesc = Path(v)
+						if cls == "" {
+							// the classifier may be a parameter of an extracted builder helper: the constant at its call site
+							if pth := Path(st.Val); strings.HasPrefix(pth, "const:") {
+								cls = strings.Trim(strings.TrimPrefix(pth, "const:"), "\"")
+							}
+						}
+						if cls != "result" && cls != "reply" {
+							continue
+						}
+						nBuilders++
+						base := FnName(fn) + "|" + cls
+						hdr := fa.X // address of the header
+						got := map[string]ssa.Value{}
+						if hdr.Referrers() != nil {
+							for _, ref := range *hdr.Referrers() {
+								f2, ok := ref.(*ssa.FieldAddr)
+								if !ok {
+									continue
+								}
+								for _, r2 := range *f2.Referrers() {
+									if s2, ok := r2.(*ssa.Store); ok && s2.Addr == ssa.Value(f2) {
+										got[fieldOfAddr(f2).Name()] = s2.Val
+									}
+								}
+							}
+						}
+						pos := p.InstrPos(st)
+						reqParam := ""
+						sndParam := ""
+						for _, prm := range fn.Params[1:] {
+							if isNamed(prm.Type(), "model", "HeaderType") {
+								reqParam = "param:" + prm.Name()
+							} else if isNamed(prm.Type(), "model", "FeatureAddressType") && sndParam == "" {
+								sndParam = "param:" + prm.Name()
+							}
+						}
+						ref := ""
+						if v := got["MsgCounterReference"]; v != nil {
+							ref = Path(v)
+						}
+						r.Check("R4", base+"|msgCounterReference", reqParam != "" && ref == reqParam+".MsgCounter", pos, "MsgCounterReference = "+ref)
+						dst := ""
+						if v := got["AddressDestination"]; v != nil {
+							dst = Path(v)
+						}
+						r.Check("R4", base+"|destination", reqParam != "" && dst == reqParam+".AddressSource", pos, "AddressDestination = "+dst)
+						// source: address of a local copy of *request.AddressDestination with Device = sender.Device
+						srcOK, srcDesc := false, ""
+						if v := got["AddressSource"]; v != nil {
+							if al, ok := v.(*ssa.Alloc); ok {
+								whole, dev := "", ""
+								for _, ref := range *al.Referrers() {
+									switch y := ref.(type) {
+									case *ssa.Store:
+										if y.Addr == ssa.Value(al) {
+											whole = Path(y.Val)
+										}
+									case *ssa.FieldAddr:
+										for _, r2 := range *y.Referrers() {
+											if s2, ok := r2.(*ssa.Store); ok && s2.Addr == ssa.Value(y) {
+												if fieldOfAddr(y).Name() == "Device" {
+													dev = Path(s2.Val)
+												} else {
+													dev = "other field " + fieldOfAddr(y).Name()
+												}
+											}
+										}
+									}
+								}
+								srcDesc = fmt.Sprintf("copy of %s with Device = %s", whole, dev)
+								srcOK = whole == reqParam+".AddressDestination" && dev == sndParam+".Device"
+							} else {
+								srcDesc = Path(v)
+							}
+						}
+						r.Check("R4", base+"|source", srcOK, pos, "AddressSource = "+srcDesc)
+						// msgCounter: result of a call (the counter function), see C13
+						mc := ""
+						if v := got["MsgCounter"]; v != nil {
+							mc = Path(v)
+						}
+						r.Check("R4", base+"|msgCounter", strings.HasSuffix(mc, "()") && strings.HasPrefix(mc, "recv."), pos, "MsgCounter = "+mc)
 					}
 				}
-				r.Check("R4", base+"|source", srcOK, pos, "AddressSource = "+srcDesc)
-				// msgCounter: result of a call (the counter function), see C13
-				mc := ""
-				if v := got["MsgCounter"]; v != nil {
-					mc = Path(v)
-				}
-				r.Check("R4", base+"|msgCounter", strings.HasSuffix(mc, "()") && strings.HasPrefix(mc, "recv."), pos, "MsgCounter = "+mc)
 			}
-		}
+		})
 	}
 	r.Floor("R4", "response builders", nBuilders, 2)
 }
